@@ -254,7 +254,7 @@ impl Check for C12 {
             Phase { name: "decode: every entry of a valid map duplicated at every position, valid and arbitrary second values, mixed key encodings, all carriers", cases: scale(if q { 7500 } else { 60000 }, b), exhaustive: false },
             Phase { name: "decode: label x position-pair matrix for maps of <= 4 entries over the label alphabet", cases: scale(if q { 7500 } else { 40000 }, b), exhaustive: false },
             Phase { name: "encode: extras repeating a label / naming a populated typed field, in Header, CoseKey, ClaimsSet and nested carriers", cases: scale(if q { 150000 } else { 1000000 }, b), exhaustive: false },
-            Phase { name: "encode: every typed label of Header (7, with 1 and 2+ counter-signatures), CoseKey (5), ClaimsSet (7) as an extra", cases: 8 + 5 + 7, exhaustive: true },
+            Phase { name: "encode: every typed label of Header (7, with 1 and 2+ counter-signatures; also with both IV and Partial IV populated), CoseKey (5), ClaimsSet (7) as an extra", cases: 8 + 5 + 7 + 4, exhaustive: true },
         ]
     }
     fn run_case(&self, ctx: &mut Ctx, phase: usize, idx: u64) {
@@ -411,6 +411,18 @@ impl Check for C12 {
                     }
                     h.csigs = if idx == 7 { vec![MSignature::default(), MSignature::default()] } else { vec![MSignature::default()] };
                     h.rest = vec![(MLabel::Int(99), Item::int(0)), (MLabel::Int(l), Item::int(5))];
+                    encode_case(ctx, &MVal::Header(h), class);
+                } else if idx >= 20 {
+                    // an (ill-formed but constructible) header with both IVs populated
+                    let l = if idx % 2 == 0 { 5 } else { 6 };
+                    let mut h = MHeader::default();
+                    h.iv = vec![1];
+                    h.piv = vec![2];
+                    if idx >= 22 {
+                        h.alg = Some(MLabel::Int(-7));
+                        h.kid = vec![3];
+                    }
+                    h.rest = vec![(MLabel::Int(l), Item::int(5))];
                     encode_case(ctx, &MVal::Header(h), class);
                 } else if idx < 13 {
                     let l = idx as i64 - 7;
